@@ -29,7 +29,7 @@ C = 1e3
 PATTERNS = ["simple", "repeat2", "repeat3", "all_equal", "zeros", "projection", "mixed_sign", "cluster", "rank1", "zero_matrix",
             "neg_definite", "sym_pm"]
 STRUCT = ["diag_real", "tridiag_real", "tridiag_quat", "int", "zero_subcolumn", "leading_real_positive", "leading_zero", "block_diag",
-          "scaled", "layout", "gram"]
+          "scaled", "layout", "gram", "leading_tiny", "graded_entries"]
 
 
 def cases(tier, seed):
@@ -288,6 +288,21 @@ def _struct(spec, ctx, R):
         c[1, 0] = [abs(c[1, 0, 0]) + 0.5, 0, 0, 0] if st == "leading_real_positive" else [0, 0, 0, 0]
         c[0, 1] = c[1, 0]
         A = refq.qa(c)
+    elif st in ("leading_tiny", "graded_entries"):
+        # small-but-legitimate data next to O(1) data: the entry that carries the reflector's phase (A[1,0]) of relative size 1e-6 .. 1e-12, or
+        # every entry of the matrix on its own scale (1 .. 1e-12, Hermitian): neither is round-off, both must be carried through
+        B = refq.randq(rng, n, n)
+        A = refq.symmetrize(B + refq.herm(B))
+        c = refq.fa(A).copy()
+        if st == "leading_tiny":
+            t_ = float(rng.choice([1e-6, 1e-8, 1e-9, 2e-10, 1e-12]))
+            c[1, 0] = c[1, 0] / max(float(np.linalg.norm(c[1, 0])), 1e-300) * t_
+            c[0, 1] = c[1, 0] * np.array([1.0, -1.0, -1.0, -1.0])
+        else:
+            ex = rng.choice([0.0, -3.0, -6.0, -9.0, -12.0], size=(n, n))
+            ex = np.minimum(ex, ex.T)
+            c = c * (10.0 ** ex)[..., None]
+        A = refq.symmetrize(refq.qa(c))
     elif st == "block_diag":
         k = int(rng.integers(1, n))
         c = np.zeros((n, n, 4))
